@@ -12,9 +12,9 @@ head = tmpl[:tmpl.index('TITLE:')]
 mid = tmpl[tmpl.index('YOUR TASK:'):tmpl.index(' - BitmapFile::WritePixels')]
 tail = tmpl[tmpl.index('Read the property statement clause by clause'):]
 for pid, d in props.items():
-    wt = f'/tmp/seed9_{pid}'
+    wt = f'/tmp/seed10_{pid}'
     body = (head + f"TITLE: {d['title']}\nSTATEMENT: {d['statement']}\nQUANTIFIER: {d['quantifier']['text']}\n(anchor files, for orientation only: {', '.join(d['anchors']['files'])})\n\n"
             + mid + ''.join(f" - {u}\n" for u in used.get(pid, [])) + tail)
     body = body.replace('/tmp/seed4_C08', wt)
-    open(f'/tmp/prompt9_{pid}.txt', 'w').write(body)
+    open(f'/tmp/prompt10_{pid}.txt', 'w').write(body)
 print(len(props), 'prompts')
